@@ -482,6 +482,77 @@ fn group_layer(ctx: &mut Ctx) {
             same(ctx, "scalar_mul", "consecutive_other_point", guard(|| lq.scalar_mul(&lk)), &r2::mul(&k, &Some(qa.clone())), json!({"P": pt_json(&lq), "k": h(&lk)}));
         }
     }
+    // Jacobian representations whose STORED (Montgomery) Z limbs are boundary words: integer 1, single-limb units,
+    // all-ones limbs, Montgomery one with one limb moved by one. A shortcut keyed on the raw limbs of Z
+    // ("already affine") fires only for these.
+    {
+        let mont_one = lim(&((BigUint::one() << 256) - &c.p));
+        let mut zs: Vec<L> = vec![[1, 0, 0, 0], [0, 1, 0, 0], [0, 0, 1, 0], [0, 0, 0, 1], [2, 0, 0, 0], [u64::MAX, 0, 0, 0], [0, 0, 0, u64::MAX >> 1], [u64::MAX, u64::MAX, 0, 0], [1, 1, 1, 1]];
+        for j in 0..4 {
+            let mut a = mont_one;
+            a[j] = a[j].wrapping_add(1);
+            zs.push(a);
+            let mut b = mont_one;
+            b[j] = b[j].wrapping_sub(1);
+            zs.push(b);
+        }
+        zs.push(lim(&(&c.p - 1u32)));
+        let mut pz = ctx.prng("craftedZ");
+        let mut idx = 0u64;
+        for zl in zs.iter().filter(|z| big(z) < c.p && big(z) != BigUint::zero()) {
+            for bk in 0..3u32 {
+                idx += 1;
+                let sub = pz.next();
+                if !ctx.mine(idx) {
+                    continue;
+                }
+                let mut p = Prng::new(sub, "cz");
+                let kp = match bk {
+                    0 => BigUint::one(),
+                    1 => BigUint::from(7u32),
+                    _ => rand_scalar(&mut p, &c.n),
+                };
+                let pa = r2::mul(&kp, &r2::g()).unwrap();
+                let l = r2::from_mont_p(zl);
+                let lp = r2::to_lib_point(&pa, &l);
+                ctx.eval();
+                ctx.class("crafted_stored_Z_limbs");
+                if lp.z != *zl {
+                    ctx.violation("harness:crafted-Z-not-reproduced", json!({"z": h(zl), "got": h(&lp.z)}));
+                    continue;
+                }
+                ctx.distinct("craftedZ", &[&r2::b32(&big(zl)), &r2::b32(&kp)]);
+                let inp = json!({"P": pt_json(&lp), "affine_x": hex::encode(r2::b32(&pa.0))});
+                match guard(|| lp.to_affine_point()) {
+                    Outcome::Ret(a) => {
+                        if r2::from_mont_p(&a.x) != pa.0 || r2::from_mont_p(&a.y) != pa.1 || r2::from_mont_p(&a.z) != BigUint::one() {
+                            ctx.violation("to_affine_point:crafted_stored_Z_limbs:wrong", json!({"P": pt_json(&lp), "got": pt_json(&a)}));
+                        }
+                    }
+                    o => ctx.violation(&format!("to_affine_point:crafted_stored_Z_limbs:{}", o.class()), inp.clone()),
+                }
+                match guard(|| (lp.to_byte_be(false), lp.is_valid())) {
+                    Outcome::Ret((b, v)) => {
+                        if b != r2::encode(&pa, false) || !v {
+                            ctx.violation("to_byte_be/is_valid:crafted_stored_Z_limbs:wrong", json!({"P": pt_json(&lp), "got": hex::encode(&b), "is_valid": v}));
+                        }
+                    }
+                    o => ctx.violation(&format!("to_byte_be:crafted_stored_Z_limbs:{}", o.class()), inp.clone()),
+                }
+                let qa = r2::mul(&rand_scalar(&mut p, &c.n), &r2::g()).unwrap();
+                let lq = r2::to_lib_point(&qa, &BigUint::one());
+                let lp1 = r2::to_lib_point(&pa, &BigUint::one());
+                same(ctx, "point_add", "crafted_stored_Z_limbs", guard(|| lp.point_add(&lq)), &r2::add(&Some(pa.clone()), &Some(qa.clone())), inp.clone());
+                same(ctx, "point_add", "crafted_stored_Z_limbs", guard(|| lq.point_add(&lp)), &r2::add(&Some(pa.clone()), &Some(qa.clone())), inp.clone());
+                same(ctx, "point_add", "crafted_stored_Z_limbs", guard(|| lp.point_add(&lp1)), &r2::dbl(&Some(pa.clone())), inp.clone());
+                same(ctx, "point_dbl", "crafted_stored_Z_limbs", guard(|| lp.point_dbl()), &r2::dbl(&Some(pa.clone())), inp.clone());
+                same(ctx, "neg", "crafted_stored_Z_limbs", guard(|| lp.neg()), &r2::neg(&Some(pa.clone())), inp.clone());
+                let k = rand_scalar(&mut p, &c.n);
+                let lk = lim(&k);
+                same(ctx, "scalar_mul", "crafted_stored_Z_limbs", guard(|| lp.scalar_mul(&lk)), &r2::mul(&k, &Some(pa.clone())), inp.clone());
+            }
+        }
+    }
     // n + j for every j in 1..=40 and the scalars around every window boundary (the 4-bit window adds a
     // table point to an accumulator; the accumulator equals that table point only for crafted scalars)
     let g_lib = r2::to_lib_point(&r2::g().unwrap(), &BigUint::one());
@@ -501,7 +572,7 @@ pub fn run(ctx: &mut Ctx) {
     for (n, ok) in r2::selftest() {
         ctx.selftest(&n, ok);
     }
-    ctx.require(&["fp_add", "fp_sub", "fp_mul", "fp_sqr", "fp_double", "fp_triple", "fp_neg", "fp_div2", "fp_inv", "fp_pow", "fp_sqrt_residue", "fp_sqrt_nonresidue", "fp_to_mont", "fp_from_mont", "fn_add", "fn_sub", "fn_mul", "fn_pow", "fn_inv", "u256_primitives", "u512_primitives", "fp_mont_mul_carry_out_of_2^512", "fp_mul_product=0", "fp_mul_product=1", "fp_mul_product=m-1", "table_entry", "single_byte_scalar", "P_ne_Q", "P_eq_Q_same_repr", "P_eq_Q_diff_Z", "P_eq_negQ_same_Z", "P_eq_negQ_diff_Z", "infinity_canonical", "infinity_arbitrary_XY", "k=0", "k=n", "k=n+1", "k=n+small", "k=2^256-1", "k=random", "k=sparse_limbs", "k=n+j_sweep", "consecutive_negated_base", "consecutive_same_point_other_Z", "to_affine_point", "predicates", "predicates_offcurve", "from_byte"]);
+    ctx.require(&["fp_add", "fp_sub", "fp_mul", "fp_sqr", "fp_double", "fp_triple", "fp_neg", "fp_div2", "fp_inv", "fp_pow", "fp_sqrt_residue", "fp_sqrt_nonresidue", "fp_to_mont", "fp_from_mont", "fn_add", "fn_sub", "fn_mul", "fn_pow", "fn_inv", "u256_primitives", "u512_primitives", "fp_mont_mul_carry_out_of_2^512", "fp_mul_product=0", "fp_mul_product=1", "fp_mul_product=m-1", "table_entry", "single_byte_scalar", "P_ne_Q", "P_eq_Q_same_repr", "P_eq_Q_diff_Z", "P_eq_negQ_same_Z", "P_eq_negQ_diff_Z", "infinity_canonical", "infinity_arbitrary_XY", "k=0", "k=n", "k=n+1", "k=n+small", "k=2^256-1", "k=random", "k=sparse_limbs", "k=n+j_sweep", "consecutive_negated_base", "consecutive_same_point_other_Z", "crafted_stored_Z_limbs", "to_affine_point", "predicates", "predicates_offcurve", "from_byte"]);
     field_layer(ctx);
     table_layer(ctx);
     group_layer(ctx);
